@@ -4404,6 +4404,16 @@ impl Database {
         }
     }
 
+    /// verification hook: direct access to the string-matching CHECK evaluator
+    #[cfg(kahflane_turdb_verif)]
+    pub fn verif_evaluate_check_expression(
+        expr_str: &str,
+        col_name: &str,
+        col_value: Option<&OwnedValue>,
+    ) -> Result<bool> {
+        Self::evaluate_check_expression(expr_str, col_name, col_value)
+    }
+
     pub(crate) fn evaluate_check_expression(
         expr_str: &str,
         col_name: &str,
